@@ -11,6 +11,7 @@ import (
 	"golang.org/x/tools/go/packages"
 
 	"govc/smt"
+	"govc/spec"
 	"govc/sym"
 )
 
@@ -193,7 +194,14 @@ func genModule(pkgs []*packages.Package, m *Module, byName map[string]*Module, o
 			continue
 		}
 		if up == target {
-			rr.Errors = append(rr.Errors, fmt.Sprintf("module %s uses a module of its own package", m.Name))
+			// a module of the same package: its definitions and contracts become visible here; the contracts are
+			// used at call sites only (they are verified in their own module)
+			merged, err := mergeSpec(e.Specs[target.PkgPath], um.Spec)
+			if err != nil {
+				rr.Errors = append(rr.Errors, fmt.Sprintf("module %s: %v", m.Name, err))
+				continue
+			}
+			e.Specs[target.PkgPath] = merged
 			continue
 		}
 		e.Specs[up.PkgPath] = um.Spec
@@ -293,6 +301,53 @@ func genModule(pkgs []*packages.Package, m *Module, byName map[string]*Module, o
 	return jobs
 }
 
+// mergeSpec returns a copy of own extended with the definitions and (imported) contracts of used.
+func mergeSpec(own, used *spec.File) (*spec.File, error) {
+	m := *own
+	m.Pures = map[string]*spec.PureDecl{}
+	m.UFuns = map[string]*spec.UFun{}
+	m.Folds = map[string]*spec.FoldDecl{}
+	m.Funcs = map[string]*spec.FuncSpec{}
+	for k, v := range used.Pures {
+		m.Pures[k] = v
+	}
+	for k, v := range own.Pures {
+		m.Pures[k] = v
+	}
+	for k, v := range used.UFuns {
+		m.UFuns[k] = v
+	}
+	for k, v := range own.UFuns {
+		m.UFuns[k] = v
+	}
+	for k, v := range used.Folds {
+		m.Folds[k] = v
+	}
+	for k, v := range own.Folds {
+		m.Folds[k] = v
+	}
+	for k, v := range used.Funcs {
+		c := *v
+		c.Imported = true
+		m.Funcs[k] = &c
+	}
+	for k, v := range own.Funcs {
+		if prev, dup := m.Funcs[k]; dup && prev.Imported {
+			return nil, fmt.Errorf("function %s is under contract both here and in the used module of the same package", k)
+		}
+		m.Funcs[k] = v
+	}
+	m.Axioms = append(append([]*spec.InvDecl{}, used.Axioms...), own.Axioms...)
+	// lemmas proved in the used module are facts here (those with a known finding only in their restricted form,
+	// which is not reproduced here: they are skipped)
+	for _, l := range used.Lemmas {
+		if l.Finding == "" {
+			m.Axioms = append(m.Axioms, &spec.InvDecl{Name: "lemma:" + l.Name, Body: l.Body})
+		}
+	}
+	return &m, nil
+}
+
 func verifyLemmas(e *sym.Engine, pkgPath string) (rep *sym.FuncReport, err error) {
 	defer func() {
 		if r := recover(); r != nil {
@@ -361,7 +416,7 @@ func Run(opt Options, own, used []*Module, all []*Module) *RunResult {
 			timeout = 120 * time.Second
 		}
 	}
-	sem := make(chan struct{}, 16)
+	sem := make(chan struct{}, 6)
 	var wg sync.WaitGroup
 	for _, j := range jobs {
 		wg.Add(1)
